@@ -47,6 +47,9 @@ class Scheduler:
         self._mon_codes = []
         self._granularity = None
         self.events = 0
+        self.line_budget = None  # watch_files: LINE events after which line-level pre-emption stops (deterministic)
+        self.coarse = False  # True once the line budget is used up
+        self.ticks = 0  # progress marks from the engine (ops, Z3 checks): only read by the stall detector
 
     # ------------------------------------------------------------------ thread registry
     def add_thread(self, tid, fn):
@@ -74,13 +77,19 @@ class Scheduler:
             mon.set_local_events(TOOL_ID, c, ev)
             self._mon_codes.append(c)
 
-    def watch_files(self, path_prefix, mean_run=100):
+    def watch_files(self, path_prefix, mean_run=100, line_budget=2000000):
         """pre-emption points = LINE events in every code object whose file lies under path_prefix; a scheduling decision
-        is taken when the running thread's run-length budget (geometric, drawn from the schedule PRNG) is used up"""
+        is taken when the running thread's run-length budget (geometric, drawn from the schedule PRNG) is used up.
+
+        The cost of a run is bounded by a count, never by a clock: after `line_budget` LINE events of baton holders
+        (a function of the seed alone) line-level pre-emption is switched off and the rest of the run is scheduled at
+        lock contention and thread exit only - a coarser but equally legal schedule, with every oracle still on."""
         mon = sys.monitoring
         self._granularity = "files"
         self._prefix = path_prefix
         self.mean_run = mean_run
+        self.line_budget = line_budget
+        self.coarse = False
         self._budget = self._draw_budget()
         try:
             mon.use_tool_id(TOOL_ID, "verif-sched")
@@ -105,6 +114,12 @@ class Scheduler:
         if self.current != tid:
             return None
         self.events += 1
+        if self.line_budget is not None and self.events >= self.line_budget:
+            if not self.coarse:
+                self.coarse = True
+                self.trace.update(b"coarse")
+                sys.monitoring.set_events(TOOL_ID, 0)
+            return None
         self._budget -= 1
         if self._budget > 0:
             return None
@@ -305,15 +320,22 @@ class Scheduler:
             self._thread_finished(main_tid)
         else:
             self._resume(first)
-        # wait for the end
+        # wait for the end.  A stall is "no progress", never "slow": the run's cost is bounded by counts (max_steps,
+        # line_budget); the clock only notices a baton that nobody holds any more (a harness defect, reported as such).
+        seen, idle = None, 0
         while True:
             self._main_wake.wait(timeout=30)
             if self.aborting or all(s["state"] == "done" for s in self.threads.values()):
                 break
             if not self._main_wake.is_set():
-                self.failure = self.failure or RuntimeError("scheduler stalled (wall timeout)")
-                self._abort_all(None)
-                break
+                now = (self.steps, self.events, self.switches, self.ticks)
+                idle = idle + 1 if now == seen else 0
+                seen = now
+                if idle >= 3:
+                    self.failure = self.failure or RuntimeError("scheduler stalled (no progress for 90 s)")
+                    self._abort_all(None)
+                    break
+                continue
             self._main_wake.clear()
         for st in self.threads.values():
             if st["thread"] is not None:
